@@ -83,7 +83,9 @@ namespace cds { namespace urcu {
                     unique_lock lock( m_Mutex );
                     m_bReady = true;
                 }
-                m_cvReady.notify_one();
+                // several threads can wait for this signal (to hand over new work
+                // or for the end of a synchronous pass): wake all of them
+                m_cvReady.notify_all();
 
                 {
                     // wait new data portion
